@@ -1,6 +1,7 @@
 (* Interp.v — API programs: operations, their meaning on worlds, wire format. *)
 From Coq Require Import String Ascii List Bool Arith ZArith.
 From Prov Require Import Str Sexp Tables Nsm Scope Values Record World Jtree Json Provn.
+From Prov Require Export Derive Graph.
 Import ListNotations.
 Open Scope string_scope.
 
@@ -34,6 +35,8 @@ Inductive op : Type :=
 | OExportJson (d : nat)
 | OLoadJson (t : jv)
 | OExportProvn (d : nat)
+| OToGraph (d : nat)
+| OGraphRoundTrip (d : nat)
 | OObserveAll.
 
 (* result of a step *)
@@ -72,119 +75,6 @@ Definition of_result {T} (f : T -> res) (r : result T) : res :=
   match r with OK x => f x | Raise e => RRaise e | OutOfDomain => ROOD end.
 
 Definition is_doc_ref (c : cref) : bool := match c with CDoc _ => true | CBun _ _ => false end.
-
-(* records of a container and, for a document, whether it has bundles *)
-Definition has_bundles (w : world) (c : cref) : bool :=
-  match c with
-  | CDoc d => match get_doc w d with
-              | Some dd => match dbundles dd with [] => false | _ => true end
-              | None => false
-              end
-  | CBun _ _ => false
-  end.
-
-(* ProvDocument.bundle(identifier) on document d *)
-Definition doc_new_bundle (dd : doc) (x : option namearg) (ft : ftable) : doc * result unit :=
-  match x with
-  | None => (dd, Raise EProv)
-  | Some n =>
-      match resolve None (bns (dmain dd)) n with
-      | OutOfDomain => (dd, OutOfDomain)
-      | Raise e => (dd, Raise e)
-      | OK (m, None) => (mkD (with_ns (dmain dd) m) (dbundles dd), Raise EProv)
-      | OK (m, Some q) =>
-          let dd1 := mkD (with_ns (dmain dd) m) (dbundles dd) in
-          if mem (qn_uri q) (dbundles dd) then (dd1, Raise EProv)
-          else (mkD (dmain dd1) (dbundles dd1 ++ [(qn_uri q, bundle_init (Some q))])%list, OK tt)
-      end
-  end.
-
-(* ProvBundle.update / ProvDocument.update: target container c of document value
-   [dd] receives the records (and bundles) of source document/bundle *)
-Fixpoint merge_bundles (ft : ftable) (dd : doc) (bs : list (string * bundle)) : doc * result unit :=
-  match bs with
-  | [] => (dd, OK tt)
-  | (k, sb) :: rest =>
-      let par := Some (bns (dmain dd)) in
-      (* "bundle.identifier in self._bundles" *)
-      match sb with
-      | mkB None _ _ _ => (dd, OutOfDomain)
-      | mkB (Some sid) _ srecs _ =>
-          let key := qn_uri sid in
-          let step1 : doc * result nat :=
-            match find (fun ib => String.eqb (fst (snd ib)) key)
-                       (combine (seq 0 (length (dbundles dd))) (dbundles dd)) with
-            | Some (i, _) => (dd, OK i)
-            | None =>
-                match doc_new_bundle dd (Some (NQn sid)) ft with
-                | (dd1, OK _) => (dd1, OK (length (dbundles dd1) - 1))
-                | (dd1, Raise e) => (dd1, Raise e)
-                | (dd1, OutOfDomain) => (dd1, OutOfDomain)
-                end
-            end in
-          match step1 with
-          | (dd1, OK i) =>
-              match nth_error (dbundles dd1) i with
-              | Some (k1, tb) =>
-                  let par1 := Some (bns (dmain dd1)) in
-                  match add_records par1 ft tb srecs with
-                  | (tb', OK _) =>
-                      merge_bundles ft (mkD (dmain dd1) (set_nth i (k1, tb') (dbundles dd1))) rest
-                  | (tb', Raise e) => (mkD (dmain dd1) (set_nth i (k1, tb') (dbundles dd1)), Raise e)
-                  | (tb', OutOfDomain) => (dd1, OutOfDomain)
-                  end
-              | None => (dd1, OutOfDomain)
-              end
-          | (dd1, Raise e) => (dd1, Raise e)
-          | (dd1, OutOfDomain) => (dd1, OutOfDomain)
-          end
-      end
-  end.
-
-(* ProvBundle.unified() for a bundle of a document: the new (loose) bundle *)
-Definition bundle_unified (ft : ftable) (b : bundle) : result bundle :=
-  match unified_records ft b with
-  | OutOfDomain => OutOfDomain
-  | Raise e => Raise e
-  | OK urecs =>
-      match add_records None ft (bundle_init (bid b)) urecs with
-      | (nb, OK _) => OK nb
-      | (_, Raise e) => Raise e
-      | (_, OutOfDomain) => OutOfDomain
-      end
-  end.
-
-(* ProvDocument.add_bundle(bundle) for a loose bundle, identifier taken from it *)
-Definition attach_bundle (dd : doc) (b : bundle) : doc * result unit :=
-  match bid b with
-  | None => (dd, Raise EProv)
-  | Some i =>
-      match resolve (Some (bns (dmain dd))) (bns b) (NQn i) with
-      | OK (m, Some q) =>
-          if mem (qn_uri q) (dbundles dd) then (dd, Raise EProv)
-          else (mkD (dmain dd) (dbundles dd ++ [(qn_uri q, mkB (Some q) m (brecs b) (bidmap b))])%list, OK tt)
-      | OK (_, None) => (dd, OutOfDomain)
-      | Raise e => (dd, Raise e)
-      | OutOfDomain => (dd, OutOfDomain)
-      end
-  end.
-
-(* the bundles of a document, unified one after the other and attached to [nd] *)
-Fixpoint unify_bundles (ft : ftable) (bs : list (string * bundle)) (nd : doc) : result doc :=
-  match bs with
-  | [] => OK nd
-  | (k, b) :: rest =>
-      match bundle_unified ft b with
-      | OK nb =>
-          match attach_bundle nd nb with
-          | (nd', OK _) => unify_bundles ft rest nd'
-          | (_, Raise e) => Raise e
-          | (_, OutOfDomain) => OutOfDomain
-          end
-      | Raise e => Raise e
-      | OutOfDomain => OutOfDomain
-      end
-  end.
 
 (* ---- dumps ---- *)
 Definition sx_dict (d : list (string * ns)) : sexp :=
@@ -417,29 +307,10 @@ Definition step (w : world) (o : op) : world * res :=
       match get_doc w d with
       | None => (w, RBad)
       | Some dd =>
-          let src := dmain dd in
-          match add_namespaces nsm_init (map snd (regd (bns src))) with
-          | None => (w, ROOD)
-          | Some m0 =>
-              let m1 := match dflt (bns src) with
-                        | Some dn => set_default m0 (ns_uri dn)
-                        | None => m0
-                        end in
-              match unified_records ft src with
-              | OutOfDomain => (w, ROOD)
-              | Raise e => (w, RRaise e)
-              | OK urecs =>
-                  match add_records None ft (mkB None m1 [] []) urecs with
-                  | (nmain, OK _) =>
-                      match unify_bundles ft (dbundles dd) (mkD nmain []) with
-                      | OK nd => (mkW (wdocs w ++ [nd])%list ft, RHandle (length (wdocs w)))
-                      | Raise e => (w, RRaise e)
-                      | OutOfDomain => (w, ROOD)
-                      end
-                  | (_, Raise e) => (w, RRaise e)
-                  | (_, OutOfDomain) => (w, ROOD)
-                  end
-              end
+          match doc_unified ft dd with
+          | OK nd => (mkW (wdocs w ++ [nd])%list ft, RHandle (length (wdocs w)))
+          | Raise e => (w, RRaise e)
+          | OutOfDomain => (w, ROOD)
           end
       end
   | ODocFromRecords c =>
@@ -510,6 +381,29 @@ Definition step (w : world) (o : op) : world * res :=
   | OExportProvn d =>
       match get_doc w d with
       | Some dd => (w, RDump (L [A "text"; A (doc_provn dd)]))
+      | None => (w, RBad)
+      end
+  | OToGraph d =>
+      match get_doc w d with
+      | Some dd => match prov_to_graph ft dd with
+                   | OK g => (w, RDump (sx_graph g))
+                   | Raise e => (w, RRaise e)
+                   | OutOfDomain => (w, ROOD)
+                   end
+      | None => (w, RBad)
+      end
+  | OGraphRoundTrip d =>
+      match get_doc w d with
+      | Some dd =>
+          match prov_to_graph ft dd with
+          | OK g => match graph_to_prov ft g with
+                    | OK nd => (mkW (wdocs w ++ [nd])%list ft, RHandle (length (wdocs w)))
+                    | Raise e => (w, RRaise e)
+                    | OutOfDomain => (w, ROOD)
+                    end
+          | Raise e => (w, RRaise e)
+          | OutOfDomain => (w, ROOD)
+          end
       | None => (w, RBad)
       end
   | OObserveAll => (w, RDump (sx_world w))
@@ -637,6 +531,8 @@ Definition px_op (x : sexp) : option op :=
   | L [A "ExportJson"; d] => option_map OExportJson (px_nat d)
   | L [A "LoadJson"; t] => option_map OLoadJson (px_jv 64 t)
   | L [A "ExportProvn"; d] => option_map OExportProvn (px_nat d)
+  | L [A "ToGraph"; d] => option_map OToGraph (px_nat d)
+  | L [A "GraphRoundTrip"; d] => option_map OGraphRoundTrip (px_nat d)
   | L [A "ObserveAll"] => Some OObserveAll
   | _ => None
   end.
